@@ -30,9 +30,7 @@ import (
 	"errors"
 	"fmt"
 	"math/big"
-	"os"
-	"runtime"
-	"runtime/pprof"
+	"runtime/debug"
 	"sort"
 	"strings"
 	"time"
@@ -1053,6 +1051,10 @@ func minimise(v viol, find func(h History) []viol) viol {
 
 func run(c *fw.Ctx) {
 	boot()
+	// The live heap of a worker is a few MB while it allocates ~150 MB/s of short-lived nodes: with
+	// the default pacing that is ~60 collections per second (20 % of the CPU).  Collect by limit instead.
+	debug.SetGCPercent(-1)
+	debug.SetMemoryLimit(256 << 20)
 	ts := templates(c.Thorough())
 	maxBig := 1
 	if c.Thorough() {
@@ -1130,14 +1132,6 @@ func run(c *fw.Ctx) {
 		}
 		return true
 	})
-	{
-		var ms runtime.MemStats
-		runtime.ReadMemStats(&ms)
-		fmt.Fprintf(os.Stderr, "MEM heapInuse=%dMB heapSys=%dMB sys=%dMB numGC=%d heapObjects=%d\n", ms.HeapInuse>>20, ms.HeapSys>>20, ms.Sys>>20, ms.NumGC, ms.HeapObjects)
-		f, _ := os.Create("heap.prof")
-		pprof.WriteHeapProfile(f)
-		f.Close()
-	}
 	if capped {
 		c.Cap("time budget: not all (history, granularity) units were examined")
 	}
